@@ -1,4 +1,5 @@
 import MpsVerif.Model.ProxyCall
+import MpsVerif.Core.Sys
 import MpsVerif.Drv.Util
 /-!
 Differential driver for the proxy-call model (`drv proxycall`).
@@ -6,6 +7,9 @@ Differential driver for the proxy-call model (`drv proxycall`).
     case <id>
     new <addr> list <vals> | dict | ns | cell <val> | ctr <int> <logaddr>
     op <client> <addr> <opname> <args…> => <observed outcome>
+    psend <conn> <addr> <opname> <args…>      (a batch issued concurrently: all sends, …
+    pexec <conn>                              … then the order in which the methods ran, as observed)
+    pend => <observed outcome of every call>  (runs `Core.run (cstep pySem)`: sends, execs, recvs)
     state <addr> => <observed object>
     end
 
@@ -101,6 +105,8 @@ structure St where
   P : PState Heap := { srv := { heap := fun _ => none, hosted := fun _ => false }, conn := fun _ => false }
   k : Nat := 0
   dead : Bool := true
+  sends : List (CAct POp) := []
+  execs : List (CAct POp) := []
 
 def splitArrow (ws : List String) : List String × String :=
   let pre := ws.takeWhile (· ≠ "=>")
@@ -143,6 +149,32 @@ partial def loop (h : IO.FS.Stream) (st : St) : IO Unit := do
       if got == want then loop h { st with P := P', k := st.k + 1 }
       else
         IO.println s!"MISMATCH {st.id} op {st.k} `{" ".intercalate pre}` on {addr} by client {c}: model `{got}` / observed `{want}`"
+        loop h { st with dead := true }
+  | "psend" :: c :: addr :: rest =>
+    if st.dead then loop h st else
+    match parseOp rest with
+    | none =>
+      IO.println s!"REJECT {st.id} {st.k} bad-op {rest}"
+      loop h { st with dead := true }
+    | some op => loop h { st with sends := st.sends ++ [.send (c.toNat?.getD 0) (addr.toNat?.getD 0) op] }
+  | "pexec" :: c :: _ =>
+    if st.dead then loop h st else loop h { st with execs := st.execs ++ [.exec (c.toNat?.getD 0)] }
+  | "pend" :: rest =>
+    if st.dead then loop h st else
+    let (_, want) := splitArrow rest
+    let recvs := st.execs.map fun a => match a with
+      | .exec c => CAct.recv c
+      | a => a
+    match Core.run (cstep pySem) (cinit st.P.srv) (st.sends ++ st.execs ++ recvs) with
+    | none =>
+      IO.println s!"REJECT {st.id} {st.k} the concurrent batch is not a run of the model"
+      loop h { st with dead := true }
+    | some cs =>
+      let bad := cs.got.filter fun x => showOutcome x.2 != want
+      if bad.isEmpty && cs.got.length == st.sends.length then
+        loop h { st with P := { st.P with srv := cs.srv }, k := st.k + cs.got.length, sends := [], execs := [] }
+      else
+        IO.println s!"MISMATCH {st.id} concurrent batch at {st.k}: model outcomes {cs.got.map (fun x => showOutcome x.2)} / observed all `{want}`"
         loop h { st with dead := true }
   | "state" :: addr :: rest =>
     if st.dead then loop h st else
